@@ -34,13 +34,18 @@ New(cmin, cmax, bins, minBins, maxBins, adaptive) ==
     IN [ min |-> cmin, max |-> mx, bins |-> bins, omin |-> cmin, omax |-> mx, obins |-> bins,
          minBins |-> minBins, maxBins |-> maxBins, adaptive |-> adaptive,
          bounds |-> Lin(cmin, mx, bins), psd |-> Seq0(bins),
-         prevPsd |-> Seq0(bins), prevBounds |-> Seq0(bins + 1), backed |-> FALSE, err |-> "",
+         prevPsd |-> Seq0(bins), prevBounds |-> Lin(cmin, mx, bins), backed |-> FALSE, err |-> "",
          recording |-> FALSE, rec |-> <<>>, hasRec |-> FALSE, clock |-> 0 ]
 
 Reset(s, resetBounds) ==
     LET t == IF resetBounds THEN [s EXCEPT !.min = s.omin, !.max = s.omax, !.bins = s.obins] ELSE s
-    IN  [t EXCEPT !.bounds = Lin(t.min, t.max, t.bins), !.psd = Seq0(t.bins),
-                  !.prevPsd = Seq0(t.bins), !.prevBounds = Seq0(t.bins + 1), !.backed = FALSE]
+    (* a full reset also forgets the backup (it then holds the fresh, empty grid); a re-mesh (resetBounds = FALSE) leaves the
+       backup alone, so that backup - re-mesh - revert restores what was backed up.  As built before the repair every reset put
+       zeros into the backup, bounds included, and a later revert installed a grid whose boundaries were all 0. *)
+    IN  IF resetBounds
+          THEN [t EXCEPT !.bounds = Lin(t.min, t.max, t.bins), !.psd = Seq0(t.bins),
+                         !.prevPsd = Seq0(t.bins), !.prevBounds = Lin(t.min, t.max, t.bins), !.backed = FALSE]
+          ELSE [t EXCEPT !.bounds = Lin(t.min, t.max, t.bins), !.psd = Seq0(t.bins)]
 
 AddClasses(s, k) ==
     LET nb == s.bins + k
